@@ -14,7 +14,7 @@ Accepted fragment (anything else: REFUSED, exit 3, the hand model stands in and 
   _search_helper    if-blocks over isinstance(query[.query1], CompoundQuery|SimpleQuery), query.operator == operator.and_|or_|not_,
                     query[.query1]._point_attr|point_attr == "<attr>", query._hash == (); `x = self._search_helper(query.query1|2)`;
                     `return a & b | a | b | ~a | a`; `a._items = <set>`; `return IndexResult(<set or self._search_*(query)>, self._num_items)`; raise
-  _search_timestamps  `op = query._operator`, `rhs = query._rhs`, an if/elif/else chain on `op == operator.<c>`,
+  _search_timestamps  `op = query._operator`, `rhs = query._rhs`, optionally `if not isinstance(rhs, datetime): op = None`, an if/elif/else chain on `op == operator.<c>`,
                     `match = find_<k>(self._timestamps, rhs.timestamp())`, `if match is None: return <set>`, `return <set>`, and two loop
                     idioms compared STRUCTURALLY (ast.dump) with the templates below (the run of equal stamps; the generic scan).
 Usage: py2coq_search.py <path/to/index.py> <out.v>
@@ -308,7 +308,7 @@ class Stamps:
         if isinstance(e, ast.Compare) and len(e.ops) == 1 and isinstance(e.ops[0], ast.Eq) and self.is_alias(e.left, "_operator"):
             r = e.comparators[0]
             if isinstance(r, ast.Attribute) and isinstance(r.value, ast.Name) and r.value.id == "operator" and r.attr in CMPS:
-                return f"(q_op_is query {CMPS[r.attr]})"
+                return f"({'q_op_is_dt' if getattr(self, 'guarded', False) else 'q_op_is'} query {CMPS[r.attr]})"
         raise Refuse(f"unsupported condition {ast.dump(e)}")
 
     def is_stamp(self, e):
@@ -372,6 +372,15 @@ class Stamps:
                 and isinstance(body[0].value, ast.Attribute) and body[0].value.attr in ("_operator", "_rhs") \
                 and isinstance(body[0].value.value, ast.Name) and body[0].value.value.id == "query":
             self.alias[body[0].targets[0].id] = body[0].value.attr
+            body = body[1:]
+        # `if not isinstance(rhs, datetime): op = None` - only a comparison that carries a datetime is bisected on
+        self.guarded = False
+        if body and isinstance(body[0], ast.If) and not body[0].orelse and len(body[0].body) == 1 and isinstance(body[0].test, ast.UnaryOp) \
+                and isinstance(body[0].test.op, ast.Not) and isinstance(body[0].test.operand, ast.Call) and ast.unparse(body[0].test.operand.func) == "isinstance" \
+                and len(body[0].test.operand.args) == 2 and self.is_alias(body[0].test.operand.args[0], "_rhs") and ast.unparse(body[0].test.operand.args[1]) == "datetime" \
+                and isinstance(body[0].body[0], ast.Assign) and len(body[0].body[0].targets) == 1 and self.is_alias(body[0].body[0].targets[0], "_operator") \
+                and isinstance(body[0].body[0].targets[0], ast.Name) and isinstance(body[0].body[0].value, ast.Constant) and body[0].body[0].value.value is None:
+            self.guarded = True
             body = body[1:]
         return "Definition search_timestamps (i : index) (query : query) : sres :=\n  " + self.seq(body, {}) + ".\n"
 
